@@ -156,6 +156,9 @@ where
         }
     } else if sampled {
         pairs.extend([(0, 1), (0, l - 1), (l - 2, l - 1), (l / 2, l - 1)]);
+        // a third of the pairs of neighbours, rotating with the seed (two positions that share a generator are most
+        // likely adjacent ones; over the sweep every pair of every residue class is visited many times)
+        pairs.extend((1..l - 1).filter(|i| (i + c.mut_seed as usize) % 3 == 0).map(|i| (i, i + 1)));
     } else {
         for i in 0..l - 1 {
             pairs.push((i, i + 1));
@@ -223,6 +226,27 @@ where
         let _ = sig.verify(pk, Some(&msgs), hdr);
         debug_assert!(h2.clone().unwrap_or_default() != hb);
         cx.expect_reject("header-edit", v(&msgs, h2.as_deref(), pk), || tag.to_string())?;
+    }
+
+    // --- a component replaced by another component of the same statement -------------------------
+    {
+        let mut borrowed: Vec<(&str, Vec<u8>)> = vec![("the public key octets", pk.to_bytes().to_vec()), ("the signature octets", sig.to_bytes().to_vec())];
+        if let Some(x) = msgs.first() {
+            borrowed.push(("the first message", x.clone()));
+        }
+        if let Some(x) = msgs.last() {
+            borrowed.push(("the last message", x.clone()));
+        }
+        for (what, val) in &borrowed {
+            if *val != hb {
+                cx.expect_reject("header-borrowed", v(&msgs, Some(val), pk), || format!("header := {}", what))?;
+            }
+        }
+        if l >= 1 && msgs[0] != hb {
+            let mut m2 = msgs.clone();
+            m2[0] = hb.clone();
+            cx.expect_reject("message-borrowed", v(&m2, hdr, pk), || "first message := the header".into())?;
+        }
     }
 
     // --- long data replaced by a digest of itself ------------------------------------------------
@@ -580,7 +604,7 @@ pub fn run(ctx: &Ctx, rep: &Report) -> Meta {
     Meta {
         rule: "honest (suite, key, header, msgs, signature) then the mutation catalogue enumerated per case: message byte change (random octet; first / last octet, one octet shorter / longer, leading zero octet for the first, last and one random message) / delete / prefix at every position, near-equal messages (same length, one octet apart, 7 to 1000 octets) in one vector, long data (messages and headers of 300 octets to 256 KiB), header-length-sweep: every header length 0..=1100 (quick) / 2400 for L in {1, 3, 10, 17} with tail edits, \
                insert (random, empty, neighbour) at every position 0..=L, extension by 1..=3, swap and replace-by-other of every pair with different contents (all pairs for L<=12), \
-               header edits as octet strings (including one of the same length with the same FNV-1a-32 value), every header and the longest message above 64 octets replaced by 27 digests of itself (SHA-2, SHA-3, SHAKE, the suite's expand_message / hash_to_scalar under the library's tags; 32 / 48 / 64 octets), refused verifications repeated a second time, pk in {other key, pk+G2, -pk}, every single-bit flip of the 80 signature octets (all 640 for L<=12), cross-suite, cross-interface in both directions (including the degenerate blind signature without commitment and without messages under every spelling of 'nothing', and the header-only plain signature through the blind verifier); \
+               header edits as octet strings (including one of the same length with the same FNV-1a-32 value), header := public key / signature / first / last message octets and first message := header (a component borrowed from elsewhere in the statement), a rotating third of the pairs of neighbours swapped also in the size sweep and under contention, every header and the longest message above 64 octets replaced by 27 digests of itself (SHA-2, SHA-3, SHAKE, the suite's expand_message / hash_to_scalar under the library's tags; 32 / 48 / 64 octets), refused verifications repeated a second time, pk in {other key, pk+G2, -pk}, every single-bit flip of the 80 signature octets (all 640 for L<=12), cross-suite, cross-interface in both directions (including the degenerate blind signature without commitment and without messages under every spelling of 'nothing', and the header-only plain signature through the blind verifier); \
                the same catalogue under contention in a cold process, re-priming with the honest verification before the spelling / suite / interface families, all pairs swapped for half of the fixed shapes up to L = 33; oracle: every mutated verification (or decoding) returns Err; non-trivial = honest case with >= 5 mutation families executed; evaluations = mutated verifications"
             .into(),
         assumptions: vec![
